@@ -27,6 +27,9 @@ theorem gen_deadline :
     Gen.Deadline.spDeadlineOrder = true ∧ Gen.Deadline.spSetDeadlineWakes = true ∧ Gen.Deadline.spTimerArms = true := by
   decide
 
+/-- `datagramBufferedPipe.Write` stores every data frame it does not refuse for a closed pipe: no other way out (T1) -/
+theorem gen_write_stores : Gen.Datagram.dgWriteStoresWhatItDoesNotRefuse = true := by decide
+
 /-- the extracted comparison: timed out ⇔ the deadline is not in the future -/
 theorem gen_timed_out (d now : Nat) : Gen.Deadline.dgTimedOut ((d : Int) - (now : Int)) = true ↔ d ≤ now := by
   unfold Gen.Deadline.dgTimedOut
